@@ -29,6 +29,9 @@ type Obligation struct {
 	timeoutMs int
 	done      chan struct{}
 	Replay    *ReplayOutcome
+	Script2   string // fallback (toleranced) form, tried when the exact form is not unsat
+	Vars2     map[string]Sort
+	UsedTol   bool
 }
 
 type Interp struct {
@@ -273,7 +276,23 @@ func (in *Interp) obligation(label, kind string, cond *Term) {
 	ob := &Obligation{Harness: in.harness, Label: label, Kind: kind, Site: in.site(in.curInstr()), PathID: in.pathID}
 	in.fillScript(ob, q)
 	in.emit(ob)
-	in.assume(cond)
+	if kind != "assert" {
+		in.assume(cond)
+	}
+}
+
+// obligation2: exact form first, toleranced form as fall-back; nothing is assumed afterwards.
+func (in *Interp) obligation2(label string, exact, tol *Term) {
+	if exact.IsTrue() {
+		in.obligation(label, "assert", exact)
+		return
+	}
+	ob := &Obligation{Harness: in.harness, Label: label, Kind: "assert", Site: in.site(in.curInstr()), PathID: in.pathID}
+	in.fillScript(ob, append(in.pc(), in.ts.Not(exact)))
+	ob2 := &Obligation{}
+	in.fillScript(ob2, append(in.pc(), in.ts.Not(tol)))
+	ob.Script2, ob.Vars2 = ob2.Script, ob2.Vars
+	in.emit(ob)
 }
 
 func (in *Interp) fillScript(ob *Obligation, q []*Term) {
